@@ -25,7 +25,7 @@ def num(x):
     return x.value if hasattr(x, 'value') and not isinstance(x, (int, float)) else int(x)
 
 def plan(tier):
-    return dict(runs=2400 if tier == 'quick' else 80000, timeout=300 if tier == 'quick' else 3600)
+    return dict(runs=2400 if tier == 'quick' else 80000, timeout=900 if tier == 'quick' else 7200)
 
 class Fail(proofsim.MonitorVerdict):
     def __init__(self, clause, msg):
